@@ -1,6 +1,6 @@
 (* C01 - wire codec round trip.  Statements only; proofs live in Wire/*Proofs.v. *)
 From LibcoapV Require Import Base.Tactics Base.Bytes Wire.OptCodec Wire.OptCodecProofs Wire.Pdu
-  Wire.PduProofs.
+  Wire.PduProofs Wire.Build Wire.BuildProofs.
 Local Open Scope Z_scope.
 
 (* every option header/value form round-trips, for every delta and every value length the
@@ -21,3 +21,81 @@ Theorem C01_serialize_parse : forall p m,
   msg_wf m -> parse p (serialize p m) = Some (norm_fields p m).
 Proof. exact parse_serialize. Qed.
 Print Assumptions C01_serialize_parse.
+
+(* ---- the builder API (model Wire/Build.v, run against coap_pdu_init / coap_add_token /
+        coap_add_option / coap_add_data on every check) ---- *)
+
+(* an accepted option lands after the last option whose number is <= n: nothing else moves *)
+Theorem C01_insert_position : forall n v l,
+  exists a b, l = a ++ b /\ insert_opt n v l = a ++ (n, v) :: b /\
+              Forall (fun o => fst o <= n) a /\
+              match b with [] => True | o :: _ => n < fst o end.
+Proof. exact insert_opt_split. Qed.
+Print Assumptions C01_insert_position.
+
+(* an operation the API refuses disturbs nothing already present: header fields, token and
+   payload unchanged, the options present before all still there with their values in the same
+   order (the one possible addition is the implicit Hop-Limit of a Proxy-Uri/Proxy-Scheme add) *)
+Theorem C01_refused_is_noop : forall p o,
+  fst (apply_op p o) = false ->
+  let m := p_msg p in let m' := p_msg (snd (apply_op p o)) in
+  same_header m m' /\ m_token m' = m_token m /\ m_payload m' = m_payload m /\
+  subseq (m_opts m) (m_opts m') /\
+  (m_opts m' = m_opts m \/ m_opts m' = insert_opt 16 [16] (m_opts m)).
+Proof. exact refused_is_noop. Qed.
+Print Assumptions C01_refused_is_noop.
+
+(* an accepted operation changes only what it names *)
+Theorem C01_accepted_changes_only_named : forall p o,
+  fst (apply_op p o) = true ->
+  let m := p_msg p in let m' := p_msg (snd (apply_op p o)) in
+  same_header m m' /\
+  match o with
+  | OpToken t => m_token m' = t /\ m_opts m' = m_opts m /\ m_payload m' = m_payload m
+  | OpOpt n v => m_token m' = m_token m /\ m_payload m' = m_payload m /\
+                 subseq (m_opts m) (m_opts m') /\
+                 (m_opts m' = insert_opt n v (m_opts m) \/
+                  m_opts m' = insert_opt n v (insert_opt 16 [16] (m_opts m)))
+  | OpData d => m_token m' = m_token m /\ m_opts m' = m_opts m /\
+                (m_payload m' = d \/ (d = [] /\ m_payload m' = m_payload m))
+  end.
+Proof. exact accepted_changes_only_named. Qed.
+Print Assumptions C01_accepted_changes_only_named.
+
+(* options already present survive any further operation list, in order *)
+Theorem C01_keeps_options : forall ops p,
+  subseq (m_opts (p_msg p)) (m_opts (p_msg (snd (run_ops p ops)))).
+Proof. exact run_ops_keeps_options. Qed.
+Print Assumptions C01_keeps_options.
+
+(* every message the API can build - any header fields, any operation list in any order,
+   any maximum size - round-trips on every framing, provided the values respect the per-option
+   limits and a 0.00 message stays empty *)
+Theorem C01_built_message_roundtrips : forall pr ty code mid max ops,
+  0 <= ty <= 3 -> 0 <= code <= 255 -> 0 <= mid <= 65535 ->
+  Forall op_ok ops ->
+  let m := p_msg (snd (run_ops (pdu_init ty code mid max) ops)) in
+  limits_ok code (m_opts m) = true ->
+  (code = 0 -> m_token m = [] /\ m_opts m = [] /\ m_payload m = []) ->
+  parse pr (serialize pr m) = Some (norm_fields pr m).
+Proof. exact built_message_roundtrips. Qed.
+Print Assumptions C01_built_message_roundtrips.
+
+(* for every maximum PDU size the token+option+payload area of what was built stays within it *)
+Theorem C01_built_message_within_max : forall ty code mid max ops,
+  Forall op_ok ops -> 0 < max ->
+  used (p_msg (snd (run_ops (pdu_init ty code mid max) ops))) <= max.
+Proof. exact built_message_within_max. Qed.
+Print Assumptions C01_built_message_within_max.
+
+(* non-vacuity: out-of-order build, extended token, implicit Hop-Limit, a refused repeat *)
+Theorem C01_demo_build :
+  let (rs, p) := run_ops (pdu_init 0 1 4660 0) demo_ops in
+  rs = [true; true; true; true; true; false; true; true; true] /\
+  m_opts (p_msg p) =
+    [(11, [97]); (11, [98]); (12, [0]); (16, [16]); (39, [99]); (60, [0]); (60000, [1])] /\
+  parse UDP (serialize UDP (p_msg p)) = Some (p_msg p) /\
+  parse TCP (serialize TCP (p_msg p)) = Some (norm_fields TCP (p_msg p)) /\
+  parse WS (serialize WS (p_msg p)) = Some (norm_fields WS (p_msg p)).
+Proof. exact demo_build. Qed.
+Print Assumptions C01_demo_build.
